@@ -574,8 +574,13 @@ class SequenceBasedRoutingProblem(RoutingProblem):
         if feasibility:
             sufficient_pp = 0.0
         else:
-            sum_arc_cost = sum(np.fabs(arc.get_cost()) for arc in self.arcs.values())
-            sufficient_pp = self.max_sequence_length*self.max_vehicles*sum_arc_cost
+            # each vehicle pays its own surcharge on every move
+            sum_arc_cost = sum(
+                np.fabs(arc.get_cost() + v_cost)
+                for v_cost in self.vehicle_cost
+                for arc in self.arcs.values()
+            )
+            sufficient_pp = self.max_sequence_length*sum_arc_cost
         return sufficient_pp
 
     def get_cplex_prob(self):
